@@ -242,9 +242,19 @@ def run(cx):
         nc = b.calls_to("length_delimited::Builder::new_codec")
         ob.floor(nc, 1, "new_codec", exact=True)
         t = arg_origin(nc[0], 0, o)
-        ob.require(nc[0].dest == 0 and term_has_call(t, "Builder::big_endian") and term_has_call(t, "Builder::length_field_length")
-                   and term_has_call(t, "LengthDelimitedCodec::builder"),
-                   "codec/chain", f"codec returned is built from {show(t)}", b.path)
+        # the setters take and return `&mut Builder`: chained or as separate statements, what matters is that they act on
+        # the one builder that makes the returned codec, before it is made
+        SETTERS = ("length_delimited::Builder::length_field_length", "length_delimited::Builder::big_endian", "length_delimited::Builder::max_frame_length")
+        bld = b.calls_to("LengthDelimitedCodec::builder")
+        ob.floor(bld, 1, "LengthDelimitedCodec::builder()", exact=True)
+
+        def on_builder(term):
+            r = strip_identity(term, SETTERS)
+            return r[0] == "call" and name_matches(r[1], "LengthDelimitedCodec::builder") and r[3] == bld[0].bb
+        be = b.calls_to("length_delimited::Builder::big_endian")
+        ok = nc[0].dest == 0 and on_builder(t) and on_builder(arg_origin(lf[0], 0, o)) and on_builder(arg_origin(be[0], 0, o)) \
+            and b.dominates(lf[0].bb, nc[0].bb) and b.dominates(be[0].bb, nc[0].bb)
+        ob.require(ok, "codec/chain", f"codec returned is built from {show(t)} (width/endianness not set on that builder before new_codec)", b.path)
         # every path reaches length_field_length, big_endian on the same builder
         must_pass(ob, b, [lf[0].bb], key="codec/len-on-all-paths")
         # all framed constructors use it
@@ -334,25 +344,39 @@ def run(cx):
     for fn, raw in (("read_request", "anemo::types::request::RawRequestHeader"), ("read_response", "anemo::types::response::RawResponseHeader")):
         with cx.ob(f"C07.3-{fn}", "R-SIBLING", f"{fn}: version, frame → bincode header, frame → body; a missing frame is an error") as ob:
             b, ws = codec_events(fn, "r", raw)
-            okw = {fmt_word(w) for w in ok_words(ws)}
-            dec = "version next eof->err decode(header) from_raw(header,version) next eof->err from_parts(header,body) ret=Ok <return>"
+            # `next().await.ok_or_else(EOF)??` and the written-out `match` (Some(Ok(f)) / Some(Err(e)) => Err / None => Err(EOF))
+            # are the same reader: the explicit error edges are canonicalised to `!err` by words_of, the combinator shows
+            # up as `eof->err`; compare modulo that token (a None/Err edge that does NOT end in an error stays visible
+            # as `[None]` / `[Err]` and refutes the success-path equality below)
+            def canon(w_):
+                return w_.replace(" eof->err", "")
+            okw = {canon(fmt_word(w)) for w in ok_words(ws)}
+            dec = canon("version next eof->err decode(header) from_raw(header,version) next eof->err from_parts(header,body) ret=Ok <return>")
             ob.require(okw == {dec}, f"{fn}/order", f"{fn}: success paths are {sorted(okw)}, expected `{dec}`", b.path, b.loc())
             # each `next` is followed by ok_or_else and two `?` before its value is used
             o = Origins(b)
             for c in b.calls_to("Option::ok_or_else"):
                 t = o.of_operand(c.args[0])
                 ob.require(term_has_call(t, "StreamExt::next"), f"{fn}/ok_or_else-on-next", f"ok_or_else applied to {show(t)[:60]}", b.path, b.loc(c.bb))
-            for c in b.calls_to(("bincode::deserialize", "BytesMut::freeze")):
-                t = o.of_operand(c.args[0])
-                n_try = len([x for x in walk(t) if x[0] == "call" and name_matches(x[1], "Try::branch")])
-                ob.require(n_try >= 2 and term_has_call(t, "Option::ok_or_else"), f"{fn}/double-try/{c.fn.split('::')[-1]}",
-                           f"{fn}: frame consumed by {c.fn} is {show(t)[:80]} (EOF / IO error not both propagated)", b.path, b.loc(c.bb))
-            errs = {fmt_word(w) for w in ws if "!err" in w}
-            want = {"version !err <return>", "version next eof->err !err <return>", "version next eof->err decode(header) !err <return>",
-                    "version next eof->err decode(header) from_raw(header,version) next eof->err !err <return>"}
+            if b.calls_to("Option::ok_or_else"):
+                for c in b.calls_to(("bincode::deserialize", "BytesMut::freeze")):
+                    t = o.of_operand(c.args[0])
+                    n_try = len([x for x in walk(t) if x[0] == "call" and name_matches(x[1], "Try::branch")])
+                    ob.require(n_try >= 2 and term_has_call(t, "Option::ok_or_else"), f"{fn}/double-try/{c.fn.split('::')[-1]}",
+                               f"{fn}: frame consumed by {c.fn} is {show(t)[:80]} (EOF / IO error not both propagated)", b.path, b.loc(c.bb))
+            else:
+                for c in b.calls_to(("bincode::deserialize", "BytesMut::freeze")):
+                    t = o.of_operand(c.args[0])
+                    ob.require(term_has_call(t, "StreamExt::next") and not term_has_call(t, ("Option::unwrap_or_default", "Option::unwrap_or", "Result::unwrap_or_default", "Result::unwrap_or")),
+                               f"{fn}/frame-from-next/{c.fn.split('::')[-1]}", f"{fn}: frame consumed by {c.fn} is {show(t)[:80]}", b.path, b.loc(c.bb))
+            errs = {canon(fmt_word(w)) for w in ws if "!err" in w}
+            want = {canon(x) for x in ("version !err <return>", "version next eof->err !err <return>", "version next eof->err decode(header) !err <return>",
+                                       "version next eof->err decode(header) from_raw(header,version) next eof->err !err <return>")}
             if fn == "read_response":
-                want.add("version next eof->err decode(header) from_raw(header,version) !err <return>")
+                want.add(canon("version next eof->err decode(header) from_raw(header,version) !err <return>"))
             ob.require(errs == want, f"{fn}/error-exits", f"{fn}: error exits are {sorted(errs)}", b.path)
+            vis = [fmt_word(w) for w in ws if any(x in ("[None]", "[Err]") for x in w)]
+            ob.require(not vis, f"{fn}/missing-frame-is-error", f"{fn}: a missing frame / IO error edge does not end in an error: {vis[:2]}", b.path)
 
     with cx.ob("C07.4", "R-SHAPE", "raw headers: exact fields/order/types, serde derives without field attributes; from_header/from_raw map field to field; extensions never travel") as ob:
         rq = cx.adt("anemo::types::request::RawRequestHeader")
